@@ -1,54 +1,59 @@
 (** C09 -- address-space conversion terminates and lands where the caller can
     use it.  Statements only; every proof is [exact <lemma>].
 
-    Model: Sys/ChainInterp.v ([addrxlat_op], [addrxlat_fulladdr_conv],
-    [do_op], the chain tables, the in-flight list, read32/read64 with their
-    nested [addrxlat_op], [addrxlat_walk] for the method kinds none / custom /
-    linear / PFN page table / lookup / memory array), with the recursion
-    depth limit of fixes/30-op-depth-limit.patch as parameter [lim]
-    ([Some MAX_OP_DEPTH] = the repaired tree, [None] = the pinned tree).
-    Spec: Sys/SysSpec.v ([conv]: a finite composition of the methods the maps
-    select, ending in a usable address space).
+    Model: Sys/ChainInterp.v.  Section [Interp]: [addrxlat_op],
+    [addrxlat_fulladdr_conv], [do_op], the chain tables, the in-flight list,
+    read32/read64 with their nested [addrxlat_op], [addrxlat_walk] for the
+    method kinds none / custom / linear / lookup / memory array / PFN page
+    table / page table of *any* format (the format's first step, next-step
+    transition and PTE size are parameters [ff], [fn], [fp]; Sys/StepGlue.v
+    instantiates them with the walk agent's Xlat/Step.v), over a memory
+    function.  Section [Cached]: the same with the 4-slot read cache of ctx.c
+    (Hist/ReadCache.v) threaded through every read, byte order, and a
+    get-page callback that may re-enter the library.  [lim] is the recursion
+    depth limit ([Some MAX_OP_DEPTH] = the tree, [None] = before fix 30).
+    Spec: Sys/SysSpec.v ([conv]).
 
-    All statements hold for every translation system [s] (any maps, any
-    assignment of methods to slots), every memory [mem] (any get-page
-    behaviour, including failures with any status), every capability mask
-    and read-capability mask, every source address in every address space,
-    every in-flight history and every amount of fuel. *)
+    All statements hold for every translation system [s], every page-table
+    format ([ff], [fn], [fp]), every memory / get-page callback, every
+    capability mask and read-capability mask, every source address in every
+    address space, every in-flight history and every amount of fuel. *)
 From Coq Require Import NArith ZArith List Bool.
-From KdV Require Import Base.Wrap64 Map.MapModel Sys.ChainInterp Sys.SysSpec Sys.SysEnv Sys.SysProofs.
+From KdV Require Import Base.Wrap64 Map.MapModel Sys.ChainInterp Sys.SysSpec Sys.SysEnv
+     Sys.SysProofs Sys.CacheProofs Sys.StepGlue.
+From KdV Require Xlat.Step Hist.ReadCache Hist.ReadCacheProofs.
 Import ListNotations.
 Local Open Scope N_scope.
 
 (** an address already in a usable space is passed through unchanged: the
-    operation is invoked once, on that very address, and its status returned
-    (no fuel, no system, no memory needed) *)
-Theorem C09_passthrough : forall lim osys rcaps mem fuel opret caps a,
+    operation is invoked once, on that very address, and its status returned *)
+Theorem C09_passthrough : forall ff fn fp wf lim osys rcaps mem fuel opret caps a,
   in_caps caps (fa_as a) ->
-  addrxlat_op lim osys rcaps mem fuel opret caps a = Done (opret a) [a].
+  addrxlat_op lim osys rcaps mem ff fn fp wf fuel opret caps a = Done (opret a) [a].
 Proof. exact addrxlat_op_passthrough. Qed.
 Print Assumptions C09_passthrough.
 
 (** the operation is only ever invoked on an address in one of the address
     spaces the caller declared usable *)
-Theorem C09_result_in_caps : forall lim osys rcaps mem fuel opret caps a st calls,
-  addrxlat_op lim osys rcaps mem fuel opret caps a = Done st calls ->
+Theorem C09_result_in_caps : forall ff fn fp wf lim osys rcaps mem fuel opret caps a st calls,
+  addrxlat_op lim osys rcaps mem ff fn fp wf fuel opret caps a = Done st calls ->
   forall x, In x calls -> in_caps caps (fa_as x).
 Proof. exact addrxlat_op_in_caps. Qed.
 Print Assumptions C09_result_in_caps.
 
 (** ... and that address is a composition of the translation methods the
-    system's maps select (memory consulted by a method being read at an
-    address that is itself converted to a readable space) *)
-Theorem C09_is_composition : forall lim s rcaps mem fuel opret caps a st calls,
-  addrxlat_op lim (Some s) rcaps mem fuel opret caps a = Done st calls ->
-  forall x, In x calls -> conv s rcaps mem caps a x.
+    system's maps select: of read-nesting depth at most the fuel and of at
+    most two methods in a row *)
+Theorem C09_is_composition : forall ff fn fp wf lim s rcaps mem fuel opret caps a st calls,
+  addrxlat_op lim (Some s) rcaps mem ff fn fp wf fuel opret caps a = Done st calls ->
+  forall x, In x calls ->
+    convB s rcaps mem ff fn fp wf fuel 2 caps a x /\ conv s rcaps mem ff fn fp wf caps a x.
 Proof. exact addrxlat_op_composition. Qed.
 Print Assumptions C09_is_composition.
 
 (** without a translation system nothing but pass-through happens *)
-Theorem C09_no_system : forall lim rcaps mem fuel opret caps a st calls,
-  addrxlat_op lim None rcaps mem fuel opret caps a = Done st calls ->
+Theorem C09_no_system : forall ff fn fp wf lim rcaps mem fuel opret caps a st calls,
+  addrxlat_op lim None rcaps mem ff fn fp wf fuel opret caps a = Done st calls ->
   forall x, In x calls -> x = a /\ in_caps caps (fa_as a).
 Proof. exact addrxlat_op_nosys. Qed.
 Print Assumptions C09_no_system.
@@ -56,74 +61,74 @@ Print Assumptions C09_no_system.
 (** either the call fails with a (non-zero) status and the operation was not
     invoked, or the operation was invoked exactly once and its status is
     returned; in particular: at most once, exactly once on success *)
-Theorem C09_callback_once : forall lim osys rcaps mem fuel opret caps a st calls,
-  addrxlat_op lim osys rcaps mem fuel opret caps a = Done st calls ->
+Theorem C09_callback_once : forall ff fn fp wf lim osys rcaps mem fuel opret caps a st calls,
+  addrxlat_op lim osys rcaps mem ff fn fp wf fuel opret caps a = Done st calls ->
   ((calls = [] /\ st <> ST_OK) \/ (exists x, calls = [x] /\ st = opret x)) /\
   (length calls <= 1)%nat /\ (st = ST_OK -> length calls = 1%nat).
 Proof.
-  exact (fun lim osys rcaps mem fuel opret caps a st calls H =>
-           conj (addrxlat_op_callback lim osys rcaps mem fuel opret caps a st calls H)
-                (addrxlat_op_once lim osys rcaps mem fuel opret caps a st calls H)).
+  exact (fun ff fn fp wf lim osys rcaps mem fuel opret caps a st calls H =>
+           conj (addrxlat_op_callback ff fn fp wf lim osys rcaps mem fuel opret caps a st calls H)
+                (addrxlat_op_once ff fn fp wf lim osys rcaps mem fuel opret caps a st calls H)).
 Qed.
 Print Assumptions C09_callback_once.
 
 (** the in-flight list never holds a duplicate and (with the limit) never
     more than [n] records: the interpreter that asserts this at the entry of
-    every (nested) [addrxlat_op] -- answering [UB] if the assertion fails --
-    is the interpreter *)
-Theorem C09_inflight_nodup : forall lim osys rcaps mem fuel caps a,
-  op_core_chk lim osys rcaps mem fuel [] caps a = op_core lim osys rcaps mem fuel [] caps a.
+    every (nested) [addrxlat_op] is the interpreter *)
+Theorem C09_inflight_nodup : forall ff fn fp wf lim osys rcaps mem fuel caps a,
+  op_core_chk ff fn fp wf lim osys rcaps mem fuel [] caps a
+  = op_core lim osys rcaps mem ff fn fp wf fuel [] caps a.
 Proof.
-  exact (fun lim osys rcaps mem fuel caps a =>
-           op_core_invariant lim osys rcaps mem fuel [] caps a (infl_ok_nil lim)).
+  exact (fun ff fn fp wf lim osys rcaps mem fuel caps a =>
+           op_core_invariant ff fn fp wf lim osys rcaps mem fuel [] caps a (infl_ok_nil lim)).
 Qed.
 Print Assumptions C09_inflight_nodup.
 
-(** ... and [op_body] consults nested calls only on lists satisfying the invariant *)
-Theorem C09_nested_calls_see_invariant : forall lim osys rcaps mem nested nested' infl caps a,
+Theorem C09_nested_calls_see_invariant :
+  forall ff fn fp wf lim osys rcaps mem nested nested' infl caps a,
   infl_ok lim infl ->
   (forall i fa, infl_ok lim i -> nested i fa = nested' i fa) ->
-  op_body lim osys rcaps mem nested infl caps a = op_body lim osys rcaps mem nested' infl caps a.
+  op_body lim osys rcaps mem ff fn fp wf nested infl caps a
+  = op_body lim osys rcaps mem ff fn fp wf nested' infl caps a.
 Proof. exact op_body_nested_ok. Qed.
 Print Assumptions C09_nested_calls_see_invariant.
 
-(** a translation that is already in flight (same address, address space and
-    chain) is refused with ADDRXLAT_ERR_NOMETH instead of recursing ... *)
-Theorem C09_guard_reports_nometh : forall lim s rcaps mem fuel infl caps a c,
+(** a translation that is already in flight is refused with
+    ADDRXLAT_ERR_NOMETH instead of recursing ... *)
+Theorem C09_guard_reports_nometh : forall ff fn fp wf lim s rcaps mem fuel infl caps a c,
   caps_has caps (fa_as a) = Some false -> N.land caps 7 <> 0 ->
   choose_chain caps (fa_as a) = Some c ->
   In (fa_addr a, fa_as a, c) infl ->
-  op_core lim (Some s) rcaps mem fuel infl caps a = Err ST_NOMETH.
+  op_core lim (Some s) rcaps mem ff fn fp wf fuel infl caps a = Err ST_NOMETH.
 Proof. exact guard_reports_nometh. Qed.
 Print Assumptions C09_guard_reports_nometh.
 
 (** ... and so is any translation once [n] translations are in flight *)
-Theorem C09_limit_reports_nometh : forall n s rcaps mem fuel infl caps a c,
+Theorem C09_limit_reports_nometh : forall ff fn fp wf n s rcaps mem fuel infl caps a c,
   caps_has caps (fa_as a) = Some false -> N.land caps 7 <> 0 ->
   choose_chain caps (fa_as a) = Some c ->
   (n <= length infl)%nat ->
-  op_core (Some n) (Some s) rcaps mem fuel infl caps a = Err ST_NOMETH.
+  op_core (Some n) (Some s) rcaps mem ff fn fp wf fuel infl caps a = Err ST_NOMETH.
 Proof. exact limit_reports_nometh. Qed.
 Print Assumptions C09_limit_reports_nometh.
 
-(** Termination with a bound that depends on the library only.  Fuel counts
-    the nesting depth of [addrxlat_op] (one unit per record pushed on the
-    in-flight list).  With the depth limit [n], fuel [n + 1] is enough for
-    every system, memory, capability mask and address -- the run never asks
-    for more -- and any larger amount gives the same result. *)
-Theorem C09_depth_bounded : forall n osys rcaps mem fuel opret caps a,
+(** Termination with a bound that depends on the library only: with the
+    depth limit [n], fuel [n + 1] (= nesting depth) is enough for every
+    system, format, memory, capability mask and address, and more fuel gives
+    the same result. *)
+Theorem C09_depth_bounded : forall ff fn fp wf n osys rcaps mem fuel opret caps a,
   (n + 1 <= fuel)%nat ->
-  addrxlat_op (Some n) osys rcaps mem fuel opret caps a <> NoFuel /\
-  addrxlat_op (Some n) osys rcaps mem fuel opret caps a =
-  addrxlat_op (Some n) osys rcaps mem (n + 1) opret caps a.
+  addrxlat_op (Some n) osys rcaps mem ff fn fp wf fuel opret caps a <> NoFuel /\
+  addrxlat_op (Some n) osys rcaps mem ff fn fp wf fuel opret caps a =
+  addrxlat_op (Some n) osys rcaps mem ff fn fp wf (n + 1) opret caps a.
 Proof. exact addrxlat_op_depth_bounded. Qed.
 Print Assumptions C09_depth_bounded.
 
 (** addrxlat_fulladdr_conv: on success the address is in the requested space
     and is a conversion of the original; on failure it is untouched *)
-Theorem C09_fulladdr_conv : forall lim s rcaps mem fuel fa as_ st fa',
-  fulladdr_conv lim (Some s) rcaps mem fuel fa as_ = Conv st fa' ->
-  (st = ST_OK /\ fa_as fa' = as_ /\ conv s rcaps mem (N.shiftl 1 (Z.to_N as_)) fa fa')
+Theorem C09_fulladdr_conv : forall ff fn fp wf lim s rcaps mem fuel fa as_ st fa',
+  fulladdr_conv lim (Some s) rcaps mem ff fn fp wf fuel fa as_ = Conv st fa' ->
+  (st = ST_OK /\ fa_as fa' = as_ /\ conv s rcaps mem ff fn fp wf (N.shiftl 1 (Z.to_N as_)) fa fa')
   \/ (st <> ST_OK /\ fa' = fa).
 Proof. exact fulladdr_conv_spec. Qed.
 Print Assumptions C09_fulladdr_conv.
@@ -133,56 +138,173 @@ Theorem C09_uses_C10_search : forall m addr, xmap_search m addr = map_search m a
 Proof. exact xmap_search_eq. Qed.
 Print Assumptions C09_uses_C10_search.
 
-(** the executable judge that evaluates the property on runs of the real
-    library (engine "sysop-spec") only accepts runs that are as the property
-    demands *)
-Theorem C09_judge_sound : forall s rcaps mem d len caps opret a st calls depth,
-  judge s rcaps mem d len caps opret a st calls depth = 0 ->
-  (depth <= MAX_OP_DEPTH)%nat /\
-  ((calls = [] /\ st <> ST_OK /\ ~ in_caps caps (fa_as a)) \/
-   (exists x, calls = [x] /\ st = opret /\ in_caps caps (fa_as x) /\
-              conv s rcaps mem caps a x /\ (in_caps caps (fa_as a) -> x = a))).
-Proof. exact judge_sound. Qed.
-Print Assumptions C09_judge_sound.
+(** ** The read cache of ctx.c *)
 
-(** Defect 30 on the pinned tree (no depth limit, [lim = None]): a memory
-    array whose base lies in the address space it translates (KVADDR, shift 3,
-    element size 24) yields a new address at every level, the in-flight check
-    never fires, and 3000 levels of recursion are not enough.  (In the 64-bit
-    model the recursion is finite by pigeonhole -- at most 15 * 2^64 keys --
-    which is no bound for a program with a finite stack.)  The same system
-    under the limit of the repaired tree ends with ADDRXLAT_ERR_NOMETH. *)
+(** For a get-page callback that does not re-enter the library (it answers
+    with a region containing the requested address, is a function of the
+    region, and fails only with a non-zero status), translation results do
+    not depend on the cache contents: from any two caches satisfying the
+    cache's invariant the outcome is the same, ... *)
+Theorem C09_readcache_irrelevant :
+  forall lim osys rcaps gp big ff fn fp wf,
+  (forall a_as a b s d, gp_region gp a_as a = Some (b, s, d) ->
+     b <= a < b + s /\ N.of_nat (length d) = s /\ b + s <= W) ->
+  (forall a_as a b s d a', gp_region gp a_as a = Some (b, s, d) -> b <= a' < b + s ->
+     gp_region gp a_as a' = Some (b, s, d)) ->
+  (forall a_as a st, gp a_as a = inl st -> st <> ST_OK) ->
+  forall fuel opret caps fa c1 c2,
+  ReadCacheProofs.inv (gp_region gp) c1 -> ReadCacheProofs.inv (gp_region gp) c2 ->
+  fst (addrxlat_op_c lim osys rcaps gp big (fun _ => None) ff fn fp wf fuel opret caps fa c1) =
+  fst (addrxlat_op_c lim osys rcaps gp big (fun _ => None) ff fn fp wf fuel opret caps fa c2).
+Proof. exact readcache_irrelevant. Qed.
+Print Assumptions C09_readcache_irrelevant.
+
+(** ... namely the outcome of the interpreter that reads memory directly
+    ([mem_of gp big]: no cache), and the invariant is kept -- so every theorem
+    above holds for the interpreter with the cache, for whole sequences of
+    calls on one context *)
+Theorem C09_readcache_transparent :
+  forall lim osys rcaps gp big ff fn fp wf,
+  (forall a_as a b s d, gp_region gp a_as a = Some (b, s, d) ->
+     b <= a < b + s /\ N.of_nat (length d) = s /\ b + s <= W) ->
+  (forall a_as a b s d a', gp_region gp a_as a = Some (b, s, d) -> b <= a' < b + s ->
+     gp_region gp a_as a' = Some (b, s, d)) ->
+  (forall a_as a st, gp a_as a = inl st -> st <> ST_OK) ->
+  forall fuel opret qs c,
+  ReadCacheProofs.inv (gp_region gp) c ->
+  run_calls lim osys rcaps gp big ff fn fp wf fuel opret qs c =
+  List.map (fun q => addrxlat_op lim osys rcaps (mem_of gp big) ff fn fp wf fuel opret (fst q) (snd q)) qs.
+Proof. exact run_calls_ok. Qed.
+Print Assumptions C09_readcache_transparent.
+
+(** the "Infinite read recursion" guard of get_cache_buf: a read that lands
+    in a slot whose fill is in progress is refused with ADDRXLAT_ERR_NODATA,
+    the cache is untouched and the callback is not called again *)
+Theorem C09_read_guard_reports_nodata :
+  forall gp big backing nested infl c fa sz i,
+  N.land (fa_addr fa) (sz - 1) = 0 -> fa_addr fa < W ->
+  ReadCache.find_slot c (Z.to_N (fa_as fa)) (fa_addr fa) = Some i ->
+  ReadCache.ptr (ReadCache.get_slot c i) = None ->
+  do_read_c gp big backing nested infl c fa sz = (RErr ST_NODATA, c).
+Proof. exact read_guard. Qed.
+Print Assumptions C09_read_guard_reports_nodata.
+
+(** A re-entrant get-page callback never makes the library recurse without
+    bound: whatever the callback (which spaces it serves by converting
+    through the library, what it answers, how it fails), whatever the cache
+    holds, with the depth limit [n] fuel [n + 1] is enough -- callback
+    re-entries and translations together nest at most [n] deep, and the run
+    ends with the operation called, a status, or a situation undefined in C.
+    (What such a callback may do to the *contents* of the cache is the open
+    finding C04-readcache-reentrant; results then depend on the cache.) *)
+Theorem C09_reentrant_callback_bounded :
+  forall osys rcaps gp big backing ff fn fp wf n fuel caps fa c,
+  (n + 1 <= fuel)%nat ->
+  fst (addrxlat_op_c (Some n) osys rcaps gp big backing ff fn fp wf fuel (fun _ => ST_OK) caps fa c)
+  <> NoFuel.
+Proof.
+  exact (fun osys rcaps gp big backing ff fn fp wf n fuel caps fa c H =>
+           addrxlat_op_c_bounded osys rcaps gp big backing ff fn fp wf n fuel (fun _ => ST_OK) caps fa c H).
+Qed.
+Print Assumptions C09_reentrant_callback_bounded.
+
+(** ** The judge *)
+
+(** the executable judge that evaluates the property on runs of the real
+    library (engine "sysop-spec") is exact: it accepts a run iff the run is
+    as the property demands, the composition clause being "a conversion of
+    read-nesting depth at most [d] and at most [len] methods in a row" *)
+Theorem C09_judge_complete : forall s rcaps mem ff fn fp wf d len caps opret a st calls depth,
+  judge s rcaps mem ff fn fp wf d len caps opret a st calls depth = 0 <->
+  run_ok s rcaps mem ff fn fp wf d len caps opret a st calls depth.
+Proof. exact judge_exact. Qed.
+Print Assumptions C09_judge_complete.
+
+(** the enumeration behind it lists exactly the conversions of its measure *)
+Theorem C09_conv_all_exact : forall s rcaps mem ff fn fp wf len d caps a b,
+  In b (conv_all s rcaps mem ff fn fp wf d len caps a) <-> convB s rcaps mem ff fn fp wf d len caps a b.
+Proof. exact conv_all_exact. Qed.
+Print Assumptions C09_conv_all_exact.
+
+(** every run of the model is accepted by the judge *)
+Theorem C09_model_passes_judge :
+  forall lim s rcaps mem ff fn fp wf fuel opret caps a st calls depth,
+  addrxlat_op lim (Some s) rcaps mem ff fn fp wf fuel (fun _ => opret) caps a = Done st calls ->
+  (depth <= MAX_OP_DEPTH)%nat ->
+  judge s rcaps mem ff fn fp wf fuel 2 caps opret a st calls depth = 0.
+Proof. exact model_passes_judge. Qed.
+Print Assumptions C09_model_passes_judge.
+
+(** ** The formats of Xlat/Step.v as parameters *)
+
+(** every next-step function of Step.v reads once, at [step->base], and does
+    with the value what [step_next] does: instantiating the format
+    parameters with [step_first] / [step_next] / [step_ptesz] loses nothing *)
+Theorem C09_step_formats_one_read : forall rm tgt mask pf s,
+  (forall a x, rm a x <> Step.RdErr Step.OK) ->
+  Step.next_step_pgt rm tgt mask pf s =
+  match step_ptesz pf with
+  | None => step_next tgt mask pf s 0
+  | Some _ =>
+      match rm (Step.s_as s) (Step.s_base s) with
+      | Step.RdOk v => step_next tgt mask pf s v
+      | Step.RdErr e => (e, s)
+      end
+  end.
+Proof. exact next_step_one_read. Qed.
+Print Assumptions C09_step_formats_one_read.
+
+(** ** Witnesses *)
+
+Definition nofmt_first : Step.aspace -> N -> Step.pform -> N -> Step.status * Step.step :=
+  fun _ _ _ a => (Step.NOTIMPL, Step.init_step a).
+Definition nofmt_next : Step.aspace -> N -> Step.pform -> Step.step -> N -> Step.status * Step.step :=
+  fun _ _ _ s _ => (Step.NOTIMPL, s).
+Definition nofmt_ptesz : Step.pform -> option N := fun _ => None.
+
+(** Defect 30 before the fix ([lim = None]): a memory array whose base lies in
+    the address space it translates yields a new address at every level, the
+    in-flight check never fires, and 3000 levels of recursion are not enough;
+    under the limit the same system ends with ADDRXLAT_ERR_NOMETH. *)
 Definition d30_sys : sys :=
   {| s_map := fun i => if i =? MAP_KV_PHYS
                        then Some [ {| endoff := MAXA; MapModel.meth := 8%Z |} ] else None;
      s_meth := repeat MNone 8 ++ [MMemarr AS_MACHPHYS (FA 0x1000 AS_KV) 3 24 8] |}.
-Definition d30_mem : Z -> N -> N -> Z * N := fun _ _ _ => (ST_OK, 0).
+Definition d30_mem : Z -> N -> N -> option (Z * N) := fun _ _ _ => Some (ST_OK, 0).
 
 Example C09_pinned_tree_recursion_witness :
-  op_core None (Some d30_sys) 2 d30_mem 3000 [] 2 (FA 0x1238 AS_KV) = OutOfFuel /\
-  addrxlat_op (Some MAX_OP_DEPTH) (Some d30_sys) 2 d30_mem 17 (fun _ => ST_OK) 2 (FA 0x1238 AS_KV)
+  op_core None (Some d30_sys) 2 d30_mem nofmt_first nofmt_next nofmt_ptesz 0 3000 [] 2 (FA 0x1238 AS_KV)
+  = OutOfFuel /\
+  addrxlat_op (Some MAX_OP_DEPTH) (Some d30_sys) 2 d30_mem nofmt_first nofmt_next nofmt_ptesz 0 17
+              (fun _ => ST_OK) 2 (FA 0x1238 AS_KV)
   = Done ST_NOMETH [].
 Proof. split; vm_compute; reflexivity. Qed.
 
-(** non-vacuity: a system in which a kernel virtual address is converted
-    through a one-level PFN64 page table whose root is itself a kernel virtual
-    address (readable only through the direct mapping set up in the same
-    system): the run nests one [addrxlat_op], succeeds, invokes the operation
-    once, and the judge accepts it *)
+(** non-vacuity: an x86-64 page table (Step.v's format, 4 levels, present +
+    accessed + dirty entries) whose root is a kernel virtual address readable
+    only through the direct mapping of the same system, run through the
+    interpreter *with* the read cache on little-endian memory: nesting depth
+    2, success, the operation invoked once, and the judge accepts the run *)
 Definition nv_sys : sys :=
   {| s_map := fun i =>
        if i =? MAP_KV_PHYS
-       then Some [ {| endoff := 0xffff; MapModel.meth := 0%Z |};            (* page table *)
-                   {| endoff := MAXA - 0x10000; MapModel.meth := 2%Z |} ]   (* direct map *)
+       then Some [ {| endoff := 0x7fffffffffff; MapModel.meth := 0%Z |};
+                   {| endoff := 0xffff07ffffffffff; MapModel.meth := (-1)%Z |};
+                   {| endoff := 0x77ffffffffff; MapModel.meth := 2%Z |} ]     (* direct map *)
        else None;
-     s_meth := [ MPgt AS_KPHYS (FA 0x100000 AS_KV) true 0 [12; 4]; MNone;
-                 MLinear AS_KPHYS 0xffffffffffff0000 ] |}.
-Definition nv_mem : Z -> N -> N -> Z * N :=
-  env_mem [(AS_KPHYS, 0xf0000)] [(AS_KPHYS, 0xf0018, 0x55)] ST_NODATA.
+     s_meth := [ MPgtF Step.KPHYSADDR Step.KVADDR 0xffff880000100000 0
+                       {| Step.pte_format := Step.PTE_X86_64; Step.fieldsz := [12; 9; 9; 9; 9] |};
+                 MNone; MLinear AS_KPHYS 0x780000000000 ] |}.
+Definition nv_gp := env_gp [(0, 0x100000); (0, 0x101000); (0, 0x102000); (0, 0x103000)]
+                          [ (0, 0x100000, 0x101063); (0, 0x101000, 0x102063);
+                            (0, 0x102000, 0x103063); (0, 0x103018, 0x55063) ] [] ST_NODATA.
+Definition nv_big := env_big [].
 
 Example C09_nonvacuous :
-  op_depth 20 0 (Some MAX_OP_DEPTH) (Some nv_sys) 1 nv_mem (fun _ => ST_OK) 1 (FA 0x3abc AS_KV)
-  = (Done ST_OK [FA 0x55abc AS_KPHYS], 2%nat) /\
-  judge nv_sys 1 nv_mem 3 2 1 ST_OK (FA 0x3abc AS_KV) ST_OK [FA 0x55abc AS_KPHYS] 2 = 0 /\
-  in_caps 1 AS_KPHYS.
-Proof. split; [vm_compute; reflexivity|split; [vm_compute; reflexivity|]]. vm_compute; split; [split; [discriminate|reflexivity]|reflexivity]. Qed.
+  let '(r, d, _) := op_depth (Some MAX_OP_DEPTH) (Some nv_sys) 1 nv_gp nv_big (fun _ => None)
+                             step_first step_next step_ptesz 8 20 0 (fun _ => ST_OK) 1
+                             (FA 0x3abc AS_KV) ReadCache.init_cache in
+  (r, d) = (Done ST_OK [FA 0x55abc AS_KPHYS], 2%nat) /\
+  judge nv_sys 1 (mem_of nv_gp nv_big) step_first step_next step_ptesz 8 3 2 1 ST_OK
+        (FA 0x3abc AS_KV) ST_OK [FA 0x55abc AS_KPHYS] 2 = 0.
+Proof. vm_compute. split; reflexivity. Qed.
